@@ -22,7 +22,7 @@ from vf.xlate import BACKENDS, translate
 RULE = (
     "case = (back end, generated base query with metadata, relation, variant). relations: qastle = python->qastle text->python round "
     "trip; alpha = random capture-avoiding renaming of lambda parameters (fresh names, or an outer parameter's name when the inner lambda "
-    "does not mention it: shadowing); metadata = every MetaData call re-attached at a random place of the main chain, relative order "
+    "does not mention it); shadow = one inner parameter renamed to an enclosing parameter's name that the inner lambda never mentions; metadata = every MetaData call re-attached at a random place of the main chain, relative order "
     "kept; fuse = a generated Select(F).Select(G) / Where(P).Where(Q) column written split vs fused (G linear in its parameter). "
     "non-trivial = the variant's source differs from the base AND (alpha: >=1 nested lambda; metadata: >=2 chain steps and >=1 moved call; "
     "fuse/qastle: always); distinct by (base, variant)."
@@ -98,6 +98,37 @@ def rel_alpha(q: ast.AST, draw) -> ast.AST:
 
     walk(q, [])
     return ast.fix_missing_locations(q)
+
+
+def rel_shadow(q: ast.AST, draw):
+    """Rename the parameter of an inner lambda to the name of an ENCLOSING lambda's parameter that the inner lambda
+    never mentions (pure shadowing).  Returns (variant, number of candidate (outer, inner) pairs)."""
+    q = copy.deepcopy(q)
+    pairs = []
+
+    def walk(node, outer):
+        if isinstance(node, ast.Lambda):
+            inside = names_in(node.body) | {x.arg for x in node.args.args}
+            for o in outer:
+                if o not in inside:
+                    for a in node.args.args:
+                        pairs.append((node, a, o))
+            walk(node.body, outer + [a.arg for a in node.args.args])
+            return
+        for ch in ast.iter_child_nodes(node):
+            walk(ch, outer)
+
+    walk(q, [])
+    if not pairs:
+        return q, 0
+    # prefer shadowing something other than the event variable (collection calls never resolve their receiver)
+    pairs.sort(key=lambda p_: p_[2] == "e")
+    k = draw(st.integers(0, min(len(pairs), 4) - 1))
+    node, a, o = pairs[k]
+    old = a.arg
+    a.arg = o
+    node.body = _Subst(old, o).visit(node.body)
+    return ast.fix_missing_locations(q), len(pairs)
 
 
 def chain_nodes(q: ast.AST) -> List[ast.Call]:
@@ -203,7 +234,7 @@ def base_queries(backend):
 
 @st.composite
 def cases(draw, backend):
-    rel = draw(st.sampled_from(["qastle", "alpha", "alpha", "metadata", "fuse"]))
+    rel = draw(st.sampled_from(["qastle", "alpha", "shadow", "shadow", "metadata", "fuse"]))
     if rel == "fuse":
         a, b, sub = draw(fuse_pairs(backend))
         return {"backend": backend, "rel": sub, "a": a, "b": b, "nested": True, "info": {}}
@@ -217,6 +248,9 @@ def cases(draw, backend):
             return {"backend": backend, "rel": rel, "a": q.text, "b": None, "discard": "qastle: " + type(e).__name__, "nested": False, "info": {}}
     elif rel == "alpha":
         var = rel_alpha(base, draw)
+    elif rel == "shadow":
+        var, npairs = rel_shadow(base, draw)
+        info = {"shadow_pairs": npairs}
     else:
         var, steps, n = rel_metadata(base, draw)
         info = {"chain_steps": steps, "metadata_calls": n}
@@ -265,7 +299,7 @@ def worker(payload):
         differs = c["a"] != c["b"]
         rel = c["rel"].split("-")[0]
         nt = differs and res == "both-translate"
-        if rel == "alpha":
+        if rel in ("alpha", "shadow"):
             nt = nt and c["nested"]
         if rel == "metadata":
             nt = nt and c["info"].get("chain_steps", 0) >= 2 and c["info"].get("metadata_calls", 0) >= 1
